@@ -2,7 +2,8 @@
     Property theorems only. [do_exports st env specs []] is the export step of
     eval_library_definition; [spec_from]/[spec_to] the internal/external name of an export spec. *)
 From Coq Require Import List.
-From RV Require Import Model.Common Model.Ast Model.Value Model.Interp Proofs.ImportProofs Proofs.LoaderProofs.
+From RV Require Import Model.Common Model.Ast Model.Value Model.Interp Spec.EvalSpec Proofs.ImportProofs Proofs.LoaderProofs
+  Proofs.RegionProofs Proofs.Locality.
 Import ListNotations.
 
 (** a library exposes exactly the external names of its export specs ... *)
@@ -55,3 +56,21 @@ Theorem C13_single_instance : forall fs cwd f efuel n l c lib,
   lib_get (i_libraries (c_inst c)) n = Some lib ->
   eval_import_set fs cwd (S f) efuel (IDirect n l) c = (Ok lib, c).
 Proof. exact single_instance. Qed.
+
+(** * a library cannot see its importer (Proofs/RegionProofs.v, Proofs/Locality.v) *)
+
+(** The frames of a library - its own frame, which has no parent, and what its procedures allocate - with the
+    libraries it imports form a region. Applying an exported procedure [p] of that region to arguments of the
+    region writes nothing outside it (the importer's frames are what they were) ... *)
+Theorem C13_library_procedure_writes_only_library_region : forall st p args r st' F V,
+  app st p args r st' -> stok F V st -> vok F V p -> Forall (vok F V) args -> untouched F V st st'.
+Proof. exact outside_untouched_app. Qed.
+
+(** ... and reads nothing outside it: from a state [w] that differs from [st] only outside the region -
+    whatever the importer defined, redefined or assigned in its own frames - the application gives the same
+    result, and the states reached agree on the region reached *)
+Theorem C13_library_procedure_reads_only_library_region : forall st p args r st' F V w,
+  app st p args r st' -> stok F V st -> vok F V p -> Forall (vok F V) args -> same_on F V st w ->
+  exists w', app w p args r w' /\
+    forall F' V', step_ok F V st F' V' st' -> same_on F' V' st' w'.
+Proof. exact application_reads_only_its_region. Qed.
